@@ -767,3 +767,39 @@ def known_le0(func, block, ex=None):
             continue
         out.extend(cond_to_le0(e, t))
     return expand_min(out)
+
+
+# ---------------------------------------------------------------- name-free views of local updates
+def erase_vars(e, selfname=None):
+    """replace local variable names by ("self",) (the variable being assigned) or ("var", "$")"""
+    if isinstance(e, tuple):
+        if e and e[0] == "var":
+            return ("self",) if (selfname is not None and e[1] == selfname) else ("var", "$")
+        return tuple(erase_vars(x, selfname) if isinstance(x, tuple) else x for x in e)
+    return e
+
+
+def local_updates(func, ex, named_only=True):
+    """every whole-local assignment as (local name, block, expr, expr with names erased / self marked).
+    Lets rules describe an update by its shape (`x = x * MAX + byte`) instead of by the variable's name."""
+    from expr import strip_tags
+    out = []
+    names = func.local_names()
+    for bi, b in enumerate(func.blocks):
+        if b["cleanup"]:
+            continue
+        for s in b["stmts"]:
+            if s["k"] == "assign" and not s["pl"]["p"]:
+                nm = names.get(s["pl"]["l"])
+                if nm is None and named_only:
+                    continue
+                e = strip_tags(ex.rvalue(s["rv"]))
+                out.append((nm or "_%d" % s["pl"]["l"], bi, e, erase_vars(e, nm)))
+        t = b["term"]
+        if t["k"] == "call" and not t["dest"]["p"]:
+            nm = names.get(t["dest"]["l"])
+            if nm is None and named_only:
+                continue
+            e = strip_tags(ex.call(t))
+            out.append((nm or "_%d" % t["dest"]["l"], bi, e, erase_vars(e, nm)))
+    return out
